@@ -46,7 +46,8 @@ def array_cases():
             (B.INT, B.INT, [0, 1, 5], [0, 1, 7]),
             (B.BV(2), B.BV(2), [0, 1, 2, 3], [0, 1, 3]),
             (B.BOOL, B.BV(1), [False, True], [0, 1]),
-            (B.INT, B.BOOL, [0, 3], [False, True])]:
+            (B.INT, B.BOOL, [0, 3], [False, True]),
+            (B.BV(1), B.INT, [0, 1], [0, 1, 7])]:
         arrs = []
         for d in vs:
             arrs.append(('arrayval', it, (G.const_bp(et, d),)))
@@ -62,6 +63,17 @@ def array_cases():
                 for k in ks:
                     kids += [G.const_bp(it, k), G.const_bp(et, vs[-1])]
                 arrs.append(('arrayval', it, tuple(kids)))
+            # every subset of the index domain assigned (in particular all
+            # but one index: the default is then observable at one point)
+            import itertools
+            for r_ in range(2, len(ks)):
+                for sub in itertools.combinations(ks, r_):
+                    for d in vs[:2]:
+                        kids = [G.const_bp(et, d)]
+                        for k in sub:
+                            kids += [G.const_bp(it, k),
+                                     G.const_bp(et, vs[-1])]
+                        arrs.append(('arrayval', it, tuple(kids)))
         a_sym = B.Sym(G.sym_name(B.ARR(it, et)) + '0', B.ARR(it, et))
         for a in arrs:
             for b in arrs:
